@@ -104,10 +104,13 @@ class Report:
 
     def check_floors(self):
         for rid, r in self.rules.items():
-            # a rule that reports a violation is not vacuous: it may have stopped at the construct it could not accept
-            if r['instances'] < r['floor'] and not r['violations']:
+            # a rule that reports a violation is not vacuous: it may have stopped at the construct it could not accept.
+            # The guard trips when fewer than half of the sites confirmed by hand are left: merging two call sites into one,
+            # or folding two arms, is an ordinary edit and must not look like a vanished anchor; losing most of them does.
+            need = max(1, (r['floor'] + 1) // 2) if r['floor'] > 0 else 0
+            if r['instances'] < need and not r['violations']:
                 raise AnalysisError(
-                    '%s: rule %s matched %d obligation sites, fewer than the %d confirmed by hand '
+                    '%s: rule %s matched %d obligation sites, fewer than half of the %d confirmed by hand '
                     '(vacuity guard): the anchors of this rule have moved' %
                     (self.pid, rid, r['instances'], r['floor']))
 
